@@ -61,7 +61,11 @@ impl TryFrom<&str> for TopicName {
         }
 
         #[cfg(not(feature = "__notopiccheck"))]
-        if value[1..].starts_with(RESERVED_NAMESPACE) {
+        // `get` instead of indexing: byte 1 need not be a character boundary
+        if value
+            .get(1..)
+            .map_or(false, |rest| rest.starts_with(RESERVED_NAMESPACE))
+        {
             return Err(SeliumError::ReservedNamespaceError);
         }
 
